@@ -2,7 +2,6 @@
   C19 — builders apply exactly the documented effect of each call, in any order.
 -/
 import CosetModel.Builders
-import CosetProofs.Ties
 namespace Coset.Props.C19
 open Coset
 
@@ -172,17 +171,6 @@ example : (runOps HeaderOp.apply [.iv [1], .partialIv [2]] Header.default 0).1 =
 example : ∃ s, HeaderOp.apply Header.default (.value 7 .null) = .panic s := (header_apply _ _).2 (by simp [headerEffect])
 
 
-/-! ### ties to the source text (regenerated on every run, compared in the kernel with the transcribed tree) -/
-/-- which builder macro generates which method of which builder. -/
-theorem tie_builder_uses : Coset.Gen.builderUses = Coset.Pinned.builderUses := Coset.Ties.builder_uses
-/-- the bodies of the builder macros. -/
-theorem tie_builder_macros : Coset.Gen.builderMacros = Coset.Pinned.builderMacros := Coset.Ties.builder_macros
-/-- the hand-written builder methods, guards included. -/
-theorem tie_builder_methods : Coset.Gen.builderMethods = Coset.Pinned.builderMethods := Coset.Ties.builder_methods
-
-#print axioms tie_builder_uses
-#print axioms tie_builder_macros
-#print axioms tie_builder_methods
 #print axioms header_value_guard
 #print axioms header_apply
 #print axioms iv_exclusive_step
